@@ -29,6 +29,48 @@ struct Matrix {
 enum Sc {
     One { m: Matrix, rng: RngSpec },
     Dist { m: Matrix, trials: u64, seed: u64, cells_total: u64 },
+    /// Wide experiments with a closed-form law (stored compactly). `n_identical == 0`: TWO individuals and `c`
+    /// cases; the first is strictly better (by the given amount) on the cases in `a`, the second on those in `b`,
+    /// all other cases tie: the first discriminating case in the random order decides, so P(first wins) =
+    /// |a| / (|a| + |b|) — whatever the amounts (equal or different totals) and however far apart the cases are.
+    /// `n_identical > 0`: that many identical individuals: the winner is uniform over them (decided per octile).
+    Wide { polarity: Polarity, c: usize, a: Vec<(usize, i64)>, b: Vec<(usize, i64)>, n_identical: usize, trials: u64, seed: u64, cells_total: u64 },
+}
+
+const WIDE: u64 = 8;
+const WIDE_CELLS: u64 = 6 + 2 * 8;
+
+fn wide_experiment(i: u64, seed: u64, cells_total: u64) -> Sc {
+    let (polarity, c, a, b, n_identical, trials): (Polarity, usize, Vec<(usize, i64)>, Vec<(usize, i64)>, usize, u64) = match i {
+        // a run of >= 64 consecutive ties is likely before the first discriminating case; equal totals
+        0 => (Polarity::Score, 200, vec![(10, 1), (150, 1)], vec![(77, 2)], 0, 40_000),
+        1 => (Polarity::Error, 200, vec![(199, 3)], vec![(0, 1), (100, 1), (101, 1)], 0, 40_000),
+        // discriminating cases beyond index 4096 / 8192 / 2^15
+        2 => (Polarity::Score, 5_000, vec![(4_500, 1), (4_999, 5)], vec![(100, 1)], 0, 6_000),
+        3 => (Polarity::Error, 9_000, vec![(8_500, 1)], vec![(8_600, 1), (8_700, 2), (3, 1)], 0, 5_000),
+        4 => (Polarity::Score, 50_000, vec![(5, 1), (40_000, 1)], vec![(49_999, 2)], 0, 3_000),
+        5 => (Polarity::Error, 70_000, vec![(66_000, 1)], vec![(65_535, 1)], 0, 2_500),
+        // more identical individuals than 16 bits count
+        6 => (Polarity::Score, 1, Vec::new(), Vec::new(), 100_000, 3_000),
+        _ => (Polarity::Error, 0, Vec::new(), Vec::new(), 70_001, 3_000),
+    };
+    Sc::Wide { polarity, c, a, b, n_identical, trials, seed, cells_total }
+}
+
+fn wide_matrix(polarity: Polarity, c: usize, a: &[(usize, i64)], b: &[(usize, i64)], n_identical: usize) -> Matrix {
+    if n_identical > 0 {
+        return Matrix { polarity, rows: vec![vec![3; c]; n_identical], c };
+    }
+    // "better" = larger for scores, smaller for errors
+    let sign = if polarity == Polarity::Score { 1 } else { -1 };
+    let mut rows = vec![vec![10i64; c], vec![10i64; c]];
+    for (j, d) in a {
+        rows[0][*j] += sign * d;
+    }
+    for (j, d) in b {
+        rows[1][*j] += sign * d;
+    }
+    Matrix { polarity, rows, c }
 }
 
 type Ind<R> = EcIndividual<u32, TestResults<R>>;
@@ -280,7 +322,74 @@ fn exec_one(m: &Matrix, spec: &RngSpec, obs: &mut Obs) -> Vec<Violation> {
     v
 }
 
+fn exec_wide(sc: &Sc, obs: &mut Obs) -> Vec<Violation> {
+    let Sc::Wide { polarity, c, a, b, n_identical, trials, seed, cells_total } = sc else { return Vec::new() };
+    let m = wide_matrix(*polarity, *c, a, b, *n_identical);
+    let Some(wins) = count_wins(&m, *trials, *seed) else { return Vec::new() };
+    obs.count("steps", *trials);
+    obs.hit("probe.wide-experiment(closed-form law)");
+    obs.nontrivial(fnv1a(format!("{sc:?}").as_bytes()));
+    let mut v = Vec::new();
+    if *n_identical > 0 {
+        let mut oct = [0u64; 8];
+        for (i, w) in wins.iter().enumerate() {
+            oct[i * 8 / n_identical] += w;
+        }
+        for (o, w) in oct.iter().enumerate() {
+            obs.hit("stat-cells");
+            let lo = (o * n_identical).div_ceil(8);
+            let hi = ((o + 1) * n_identical).div_ceil(8);
+            let p = (hi - lo) as f64 / *n_identical as f64;
+            let verdict = stats::decide(*trials, *w, p, *cells_total);
+            if verdict.violated {
+                v.push(Violation::new(
+                    "selection-probability-equals-fraction-of-orderings-survived",
+                    format!("law-mismatch:identical:{polarity:?}"),
+                    format!(
+                        "lexicase({c}) on {n_identical} identical individuals: individuals #{lo}..#{hi} won {w} of {trials} seeded selections; \
+                         every individual is equally likely, so {p:.4} of them (by octile: {oct:?}; n*KL = {:.1}, threshold {:.1})",
+                        verdict.stat, verdict.threshold
+                    ),
+                ));
+                break;
+            }
+        }
+    } else {
+        obs.hit("stat-cells");
+        let p = a.len() as f64 / (a.len() + b.len()) as f64;
+        let verdict = stats::decide(*trials, wins[0], p, *cells_total);
+        if verdict.violated {
+            v.push(Violation::new(
+                "selection-probability-equals-fraction-of-orderings-survived",
+                format!("law-mismatch:wide:{polarity:?}"),
+                format!(
+                    "lexicase({c}) on two individuals, #0 better on cases {a:?}, #1 better on cases {b:?}, all other cases tied: #0 won {} of {trials} \
+                     seeded selections; the first discriminating case in a uniformly random order decides, so the law is {p:.4} (n*KL = {:.1}, threshold {:.1})",
+                    wins[0], verdict.stat, verdict.threshold
+                ),
+            ));
+        }
+    }
+    v
+}
+
 fn exec_dist(m: &Matrix, trials: u64, seed: u64, cells_total: u64, obs: &mut Obs) -> Vec<Violation> {
+    let n = m.rows.len();
+    let Some(wins) = count_wins(m, trials, seed) else {
+        return Vec::new(); // the exact clauses report panics / errors
+    };
+    exec_dist_decide(m, trials, cells_total, &wins, n, obs)
+}
+
+/// Index of the element `r` refers to inside `pop` (None if it points elsewhere).
+fn index_in<T>(pop: &[T], r: &T) -> Option<usize> {
+    let base = pop.as_ptr() as usize;
+    let at = std::ptr::from_ref(r) as usize;
+    let sz = std::mem::size_of::<T>().max(1);
+    (at >= base && (at - base) % sz == 0 && (at - base) / sz < pop.len()).then(|| (at - base) / sz)
+}
+
+fn count_wins(m: &Matrix, trials: u64, seed: u64) -> Option<Vec<u64>> {
     let mut rng = FastRng::new(seed);
     let n = m.rows.len();
     let mut wins = vec![0u64; n];
@@ -292,7 +401,7 @@ fn exec_dist(m: &Matrix, trials: u64, seed: u64, cells_total: u64, obs: &mut Obs
             let l = Lexicase::new(m.c);
             catch(|| {
                 for _ in 0..trials {
-                    match l.select(&pop, &mut rng).ok().and_then(|r| pop.iter().position(|x| std::ptr::eq(x, r))) {
+                    match l.select(&pop, &mut rng).ok().and_then(|r| index_in(&pop, r)) {
                         Some(w) => wins[w] += 1,
                         None => return false,
                     }
@@ -305,7 +414,7 @@ fn exec_dist(m: &Matrix, trials: u64, seed: u64, cells_total: u64, obs: &mut Obs
             let l = Lexicase::new(m.c);
             catch(|| {
                 for _ in 0..trials {
-                    match l.select(&pop, &mut rng).ok().and_then(|r| pop.iter().position(|x| std::ptr::eq(x, r))) {
+                    match l.select(&pop, &mut rng).ok().and_then(|r| index_in(&pop, r)) {
                         Some(w) => wins[w] += 1,
                         None => return false,
                     }
@@ -314,9 +423,10 @@ fn exec_dist(m: &Matrix, trials: u64, seed: u64, cells_total: u64, obs: &mut Obs
             })
         }
     };
-    if !matches!(ok, Ok(true)) {
-        return Vec::new(); // the exact clauses report panics / errors
-    }
+    matches!(ok, Ok(true)).then_some(wins)
+}
+
+fn exec_dist_decide(m: &Matrix, trials: u64, cells_total: u64, wins: &[u64], n: usize, obs: &mut Obs) -> Vec<Violation> {
     obs.count("steps", trials);
     if order_sensitive(m) {
         obs.hit("probe.order-sensitive-matrix");
@@ -440,12 +550,15 @@ impl Check for C08 {
 
     fn generate(&self, g: &mut Xo, tier: Tier, run: u64) -> Sc {
         let mats = if tier == Tier::Quick { MATRICES_QUICK } else { MATRICES_THOROUGH };
+        if run >= mats && run < mats + WIDE {
+            return wide_experiment(run - mats, g.next_u64(), mats * 6 + WIDE_CELLS);
+        }
         if run < mats {
             return Sc::Dist {
                 m: gen_matrix(g, run % 4 != 3),
                 trials: if tier == Tier::Quick { 60_000 } else { 400_000 },
                 seed: g.next_u64(),
-                cells_total: mats * 6,
+                cells_total: mats * 6 + WIDE_CELLS,
             };
         }
         if g.chance(1, 25) {
@@ -469,6 +582,7 @@ impl Check for C08 {
         match sc {
             Sc::One { m, rng } => exec_one(m, rng, obs),
             Sc::Dist { m, trials, seed, cells_total } => exec_dist(m, *trials, *seed, *cells_total, obs),
+            Sc::Wide { .. } => exec_wide(sc, obs),
         }
     }
 
@@ -502,9 +616,9 @@ impl Check for C08 {
             "stat_budget".into(),
             serde_json::json!({
                 "delta_total": stats::DELTA_TOTAL,
-                "cells": mats * 6,
+                "cells": mats * 6 + WIDE_CELLS,
                 "trials_per_matrix": trials,
-                "threshold_nKL": stats::threshold(mats * 6),
+                "threshold_nKL": stats::threshold(mats * 6 + WIDE_CELLS),
                 "resolution_at_p_0.25": stats::resolution(trials, 0.25, mats * 6),
             }),
         );
